@@ -2,6 +2,7 @@
 use crate::common::{Ctx, Report};
 use serde_json::Value;
 
+pub mod c04;
 pub mod stateful;
 use stateful::Target;
 
@@ -11,6 +12,9 @@ pub fn run(ctx: &Ctx) -> Option<Report> {
         "C02" => Some(stateful::run_target(ctx, Target::C02)),
         "C16" => Some(stateful::run_target(ctx, Target::C16)),
         "C17" => Some(stateful::run_target(ctx, Target::C17)),
+        "C03" => Some(stateful::run_target(ctx, Target::C03)),
+        "C04" => Some(c04::run(ctx)),
+        "C06" => Some(stateful::run_target(ctx, Target::C06)),
         _ => None,
     }
 }
@@ -21,6 +25,9 @@ pub fn replay(ctx: &Ctx, case: &Value) -> Option<Report> {
         "C02" => Some(stateful::replay_target(ctx, Target::C02, case)),
         "C16" => Some(stateful::replay_target(ctx, Target::C16, case)),
         "C17" => Some(stateful::replay_target(ctx, Target::C17, case)),
+        "C03" => Some(stateful::replay_target(ctx, Target::C03, case)),
+        "C04" => Some(c04::replay(ctx, case)),
+        "C06" => Some(stateful::replay_target(ctx, Target::C06, case)),
         _ => None,
     }
 }
